@@ -9,6 +9,7 @@ restores a fresh reader is part of the model (`Rd.reset`) and is what the implem
 of the correspondence tests.  The theorems are about the repository's wrappers.
 -/
 import ConfModel.Lemmas.Compression
+import ConfModel.Lemmas.CompressionRaw
 import ConfModel.Generated.C20Facts
 namespace ConfModel.Props.C20
 open ConfModel.Compression ConfModel.CompressionSpec
@@ -95,12 +96,117 @@ theorem compressor_reuse (l : Lib) (ms : List Bytes) :
   have := compressAll_sinks l cinit ms rfl
   simpa [cinit] using this
 
+/-! ## raw-payload encoders (`internal/raw_http_body.go` with the compressors of `internal/compression`) -/
+
+/-- A present payload — also the empty one — written by `WriteRawMessageContents` under one of
+the six encodings (or unspecified) is the encoding of exactly that payload: a fresh reader of
+the same algorithm returns it, and so does a pooled decompressor in whatever state it is. -/
+theorem raw_message_roundtrip (ls : Alg → Lib) (hl : ∀ a, (ls a).Lawful) (e : Nat) (a : Alg)
+    (ha : algOfEnum e = some a) (d : Bytes) (s : St) :
+    ∃ w, RawBody.writeMessage (rawCompress ls) (some ⟨some d, e⟩) = some w ∧
+      (ls a).look w = ⟨true, some d⟩ ∧ (cycle (ls a) s w).2 = .data d :=
+  ⟨(ls a).enc d, by simp [RawBody.writeMessage, rawCompress, ha], hl a d, cycle_valid_aux _ (hl a) s d⟩
+
+/-- in particular the empty payload is not "nothing": it is written as `enc []` -/
+example (ls : Alg → Lib) : RawBody.writeMessage (rawCompress ls) (some ⟨some [], 2⟩) = some ((ls .gzip).enc []) := rfl
+
+/-- an absent payload (nil contents, unset oneof) writes nothing and asks for no compressor;
+an enum value outside the table is refused, also for the empty payload -/
+theorem raw_message_absent_unsupported (ls : Alg → Lib) (e : Nat) (d : Bytes) :
+    RawBody.writeMessage (rawCompress ls) none = some [] ∧
+    RawBody.writeMessage (rawCompress ls) (some ⟨none, e⟩) = some [] ∧
+    (algOfEnum e = none → RawBody.writeMessage (rawCompress ls) (some ⟨some d, e⟩) = none) := by
+  refine ⟨rfl, rfl, fun h => ?_⟩
+  simp [RawBody.writeMessage, rawCompress, h]
+
+/-- `WriteRawStreamContents` on items without an explicit length: nothing fails, and the body
+splits back into exactly one envelope per item, carrying the item's flags and the bytes
+`WriteRawMessageContents` writes for its payload (which `raw_message_roundtrip` decodes). -/
+theorem raw_stream_frames (ls : Alg → Lib) (items : List RawBody.Item)
+    (h : ∀ it ∈ items, it.length = none ∧ it.flags ≤ 255 ∧
+      ∃ p, RawBody.writeMessage (rawCompress ls) it.payload = some p ∧ p.length < 4294967296) :
+    (RawBody.writeStream (rawCompress ls) items).failed = false ∧
+    splitFrames items.length (RawBody.writeStream (rawCompress ls) items).bytes =
+      (items.map (fun it => (it.flags, (RawBody.writeMessage (rawCompress ls) it.payload).getD [])), []) := by
+  induction items with
+  | nil => exact ⟨rfl, rfl⟩
+  | cons it t ih =>
+    obtain ⟨hlen, hfl, p, hp, hpl⟩ := h it (List.mem_cons_self ..)
+    have ih' := ih (fun x hx => h x (List.mem_cons_of_mem _ hx))
+    have hfl' : ¬ it.flags > 255 := by omega
+    simp only [RawBody.writeStream, hfl', if_false, hlen, hp, List.length_cons, List.map_cons, Option.getD_some]
+    refine ⟨ih'.1, ?_⟩
+    rw [splitFrames_cons _ _ _ _ hfl hpl, ih'.2]
+
+/-- non-vacuity: two items (an empty gzip payload with the compressed flag, an absent payload) -/
+example : (RawBody.writeStream (rawCompress (fun _ => toyLib)) [⟨1, none, some ⟨some [], 2⟩⟩, ⟨2, none, none⟩]).bytes =
+    [1, 0, 0, 0, 1, 7, 2, 0, 0, 0, 0] := by decide
+
+/-! ## the wire tracer's end-stream path (`internal/tracer/reader.go`) -/
+
+/-- A compressed end-stream message that is a valid encoding of `b` is reported as `b` by the
+tracer's decompressor instance in whatever state earlier messages left it … -/
+theorem tracer_valid (l : Lib) (hl : l.Lawful) (s : St) (b : Bytes) : (tracerDecode l s (l.enc b)).2 = b :=
+  tracerDecode_valid l hl s b
+
+/-- … hence at every position of every sequence of end-stream payloads of one response body
+(damaged, truncated or valid), starting from the instance `GetDecompressor` returns. -/
+theorem tracer_history (l : Lib) (hl : l.Lawful) (k : Kind) (srcs : List Bytes) (i : Nat) (b : Bytes)
+    (hi : srcs[i]? = some (l.enc b)) : (tracerRun l (init k) srcs)[i]? = some b :=
+  tracerRun_valid l hl (init k) srcs i b hi
+
+/-- The same for a whole body of data and end-stream messages, compressed or not: the content
+reported for a compressed, non-empty end-stream message carrying a valid encoding of `b` is
+`b`; for an uncompressed one its payload; nothing for a message that is no end-stream message. -/
+theorem tracer_body (l : Lib) (hl : l.Lawful) (s : St) (msgs : List TMsg) (i : Nat) (m : TMsg)
+    (hi : msgs[i]? = some m) :
+    (m.src ≠ [] → ¬ (m.flags % 4 < 2 ∧ m.flags % 256 < 128) → m.flags % 2 = 1 →
+      ∀ b, m.src = l.enc b → (tracerBody l s msgs)[i]? = some b) ∧
+    (m.src ≠ [] → ¬ (m.flags % 4 < 2 ∧ m.flags % 256 < 128) → m.flags % 2 = 0 →
+      (tracerBody l s msgs)[i]? = some m.src) ∧
+    ((m.flags % 4 < 2 ∧ m.flags % 256 < 128) → (tracerBody l s msgs)[i]? = some []) := by
+  induction msgs generalizing s i with
+  | nil => simp at hi
+  | cons x t ih =>
+    cases i with
+    | zero =>
+      simp only [List.getElem?_cons_zero, Option.some.injEq] at hi
+      subst hi
+      refine ⟨fun hne hend hc b hb => ?_, fun hne hend hc => ?_, fun hnot => ?_⟩
+      · have h1 : (x.src.isEmpty || (decide (x.flags % 4 < 2) && decide (x.flags % 256 < 128))) = false := by
+          cases hs : x.src with
+          | nil => exact absurd hs hne
+          | cons _ _ => simpa using hend
+        have h2 : (x.flags % 2 == 0) = false := by simp [hc]
+        rw [tracerBody]
+        simp only [h1, h2, Bool.false_eq_true, if_false]
+        simp [hb, tracerDecode_valid l hl s b]
+      · have h1 : (x.src.isEmpty || (decide (x.flags % 4 < 2) && decide (x.flags % 256 < 128))) = false := by
+          cases hs : x.src with
+          | nil => exact absurd hs hne
+          | cons _ _ => simpa using hend
+        rw [tracerBody]
+        simp [h1, hc]
+      · rw [tracerBody]
+        simp [hnot.1, hnot.2]
+    | succ j =>
+      simp only [List.getElem?_cons_succ] at hi
+      obtain ⟨y, s', hy⟩ := tracerBody_cons l s x t
+      rw [hy]
+      simp only [List.getElem?_cons_succ]
+      exact ih s' j hi
+
+/-- non-vacuity: a damaged compressed end-stream message, an uncompressed one, a data message
+and a valid compressed one, from a fresh zstd instance -/
+example : tracerBody toyLib (init .zstd) [⟨3, [9, 9]⟩, ⟨2, [5]⟩, ⟨1, [7, 4]⟩, ⟨3, toyLib.enc [1, 2]⟩] =
+    [[], [5], [], [1, 2]] := by decide
+
 /-- within the model's tables a name and its enum value denote the same algorithm -/
 theorem names_model : ∀ e ∈ [1, 2, 3, 4, 5, 6], (nameOfEnum e).bind algOfName = algOfEnum e := by decide
 
 /-- The tables extracted from the current tree (constants, `GetCompressor`/`GetDecompressor`,
-`tracer.GetDecompressor`, `checkCompression`, server and client registrations) are
-consistent: the same name denotes the same algorithm everywhere, all six and only those. -/
+the raw-payload encoders, `tracer.GetDecompressor`, `checkCompression`, server and client
+registrations) are consistent: the same name denotes the same algorithm everywhere, all six and only those. -/
 theorem names_consistent : consistent Generated.C20Facts.tables = true := by decide
 
 end ConfModel.Props.C20
